@@ -62,12 +62,37 @@ def fresh_locals(fn):
     return fresh - params
 
 
-def classify(target_expr, fn, cls, fresh):
+def alias_map(fn):
+    """local names bound exactly once, to an attribute / item / name expression: the receiver is then what that expression
+    denotes (`names = self._node_children_names; names.extend(...)` writes to the Rule object's per-call state)"""
+    count, val = {}, {}
+    for n in ast.walk(fn):
+        if isinstance(n, ast.Assign):
+            for t in n.targets:
+                for tt in (t.elts if isinstance(t, ast.Tuple) else [t]):
+                    if isinstance(tt, ast.Name):
+                        count[tt.id] = count.get(tt.id, 0) + 1
+                        val[tt.id] = n.value if len(n.targets) == 1 and not isinstance(t, ast.Tuple) else None
+        elif isinstance(n, (ast.AugAssign, ast.AnnAssign)) and isinstance(n.target, ast.Name):
+            count[n.target.id] = count.get(n.target.id, 0) + 2
+        elif isinstance(n, (ast.For, ast.comprehension)) :
+            for m in ast.walk(n.target):
+                if isinstance(m, ast.Name):
+                    count[m.id] = count.get(m.id, 0) + 2
+    params = {a.arg for a in fn.args.args + fn.args.kwonlyargs}
+    return {k: v for k, v in val.items() if count.get(k) == 1 and k not in params and isinstance(v, (ast.Attribute, ast.Subscript, ast.Name))}
+
+
+def classify(target_expr, fn, cls, fresh, depth=0):
     r = root_name(target_expr)
     if r is None:
         return "tree"
     if r in fresh:
         return "local"
+    if depth < 5:
+        am = alias_map(fn)
+        if r in am and isinstance(target_expr, (ast.Name, ast.Attribute, ast.Subscript, ast.Call)):
+            return classify(am[r], fn, cls, fresh, depth + 1)
     if r == "self" and cls == "Rule":
         return "rule"
     if r in CALLER_LISTS:
